@@ -57,13 +57,13 @@ def gen_ops(ctx):
                   "wp 0 g g",                                 # MaxWorkers 0 -> pool of one
                   "wp 2 g g p:0 p:0 a g p:0 gc:0"]:           # Put collects one expired worker
         ops.append((fixed, "wp-fixed", None))
-    for _ in range(1000 if quick else 20000):
+    for _ in range(800 if quick else 20000):
         ops.append((gen_wp(rng), "wp", None))
     for fixed in ["adm 10000 4096 a:1:100 a:2:5000 a:3:3000 a:4:20000 r:0 w:0 r:0 r:0",
                   "adm 8192 4096 a:1:0 a:2:0 a:3:0 a:4:0 w:0 r:0 r:0 r:0",   # FIFO queue, cancel of the front waiter
                   "adm 5000 1024 a:1:4000 a:2:3000 a:3:100 r:0 r:0 r:0"]:   # a small request does not overtake a big waiter
         ops.append((fixed, "adm-fixed", None))
-    for _ in range(100 if quick else 3000):
+    for _ in range(80 if quick else 3000):
         ops.append((gen_adm(rng), "adm", None))
     return ops
 
